@@ -183,6 +183,9 @@ func c13FnFeatures(m *ir.Module, f *ir.Function, set map[string]bool) {
 				}
 			case ir.StmtAtomic:
 				set["atomic"] = true
+				if ex, ok := k.Fun.(ir.AtomicExchange); ok && ex.Compare != nil {
+					set["atomic-compare-exchange"] = true
+				}
 				mark(k.Pointer)
 				mark(k.Value)
 			}
